@@ -215,6 +215,13 @@ Proof.
   cbv zeta. split; [apply nt_hist_okx_fixed; reflexivity|]. vm_compute. reflexivity.
 Qed.
 
+(* erase(first, first): no object is constructed, destroyed or touched, for every list and every
+   position - also in the middle of a VaryingSize vector of non-trivial types, where a shift by
+   zero elements would construct every following object on top of itself (seeded change C06m) *)
+Theorem C06_erase_of_an_empty_range_touches_no_object : forall L v i, erase_range L v i i = (v, []).
+Proof. exact erase_empty_range_identity. Qed.
+Print Assumptions C06_erase_of_an_empty_range_touches_no_object.
+
 (* ---------- the objects of a ContiguousElement ----------
    An element constructed from a reference (value_type{ref}: copy form, value_type{std::move(ref)}:
    move form) constructs - through the value type's copy / move constructor - exactly the objects
